@@ -1770,8 +1770,61 @@ def v_copy_case(tn, mutate, which):
     return {"fam": "V", "desc": f"copy;{tn};mutate={mutate};of={which}", "units": [{"funcs": [f], "entry": "f", "inputs": [({"sel": s, "i": i, "p": val}, {}) for i in (0, 2) for s in range(3)]}]}
 
 
+def v_ctor_alias_case(shape, storage, mutate):
+    """A constructed vector/matrix is a new value: its parts (variables) are used again afterwards - in a second constructor, read
+    back, or written - and the constructed value is written; every variable involved is read at the end."""
+    F2, F3, F4, M3 = VT("float", 2), VT("float", 3), VT("float", 4), ("mat", "float", 3, 3)
+    globs, params, pre = [], [("int", "sel"), ("float", "s")], []
+    if shape == "matrix-rows":
+        PT, names = F3, ["ra", "rb", "rc"]
+    else:
+        PT, names = {"vec2-first": F2, "vec2-last": F2, "vec2-twice": F2, "vec3-first": F3}[shape], ["uv"]
+    for nm in names:
+        if storage == "param":
+            params.append((PT, nm))
+        elif storage == "global":
+            globs.append((PT, nm))
+        else:
+            params.append((PT, "in_" + nm))
+            pre.append(("decl", PT, nm, V("in_" + nm)))
+    if shape == "matrix-rows":
+        RT = M3
+        body = [("decl", M3, "p", CTOR(M3, V("ra"), V("rb"), V("rc"))), ("decl", M3, "q", CTOR(M3, V("rc"), V("ra"), V("ra")))]
+        w = {"none": [], "source": [ASG(("swz", V("ra"), "y"), lit(91.0)), ASG(IDX(V("rc"), 0), lit(92.0))], "result": [ASG(IDX(IDX(V("p"), 0), 1), lit(93.0)), ASG(IDX(V("q"), 2), CTOR(F3, V("s"), V("s"), V("s")))]}[mutate]
+        reads = [V("p"), V("q"), CTOR(M3, V("ra"), V("rb"), V("rc"))]
+    else:
+        RT = F4
+        mk = {"vec2-first": lambda a, b: CTOR(F4, V("uv"), a, b), "vec2-last": lambda a, b: CTOR(F4, a, b, V("uv")), "vec2-twice": lambda a, b: CTOR(F4, V("uv"), V("uv")),
+              "vec3-first": lambda a, b: CTOR(F4, V("uv"), a)}[shape]
+        body = [("decl", F4, "p", mk(lit(0.0), lit(1.0))), ("decl", F4, "q", mk(V("s"), V("s")))]
+        w = {"none": [], "source": [ASG(("swz", V("uv"), "x"), lit(91.0))], "result": [ASG(("swz", V("p"), "yx"), CTOR(F2, lit(93.0), lit(94.0))), ASG(IDX(V("q"), 0), lit(95.0))]}[mutate]
+        reads = [V("p"), V("q"), mk(lit(5.0), lit(6.0))]
+    body = pre + body + w
+    body += [("if", B("==", V("sel"), lit(k)), ("block", [("ret", e)]), None) for k, e in enumerate(reads)]
+    body.append(("ret", reads[0]))
+    f = func("f", params, RT, body)
+    val = lambda k: vec_value("float", PT[2], 1 + 3 * k)
+    inputs = []
+    for sel in range(3):
+        args = {"sel": sel, "s": 7.5}
+        g = {}
+        for k, nm in enumerate(names):
+            if storage == "param":
+                args[nm] = val(k)
+            elif storage == "global":
+                g[nm] = val(k)
+            else:
+                args["in_" + nm] = val(k)
+        inputs.append((args, g))
+    return {"fam": "V", "desc": f"ctor-parts-reused;{shape};{storage};mutate={mutate}", "prog": {"globals": globs}, "units": [{"funcs": [f], "entry": "f", "inputs": inputs}]}
+
+
 @family("V")
 def fam_V(tier):
+    for shape in ("vec2-first", "vec2-last", "vec2-twice", "vec3-first", "matrix-rows"):
+        for storage in ("param", "local", "global"):
+            for mutate in ("none", "source", "result"):
+                yield (v_ctor_alias_case, shape, storage, mutate)
     yield from _pack("V", v_swizzle_read_units(tier), "swizzle-read")
     yield from _pack("V", v_misc_units(tier), "vector-matrix-ops")
     for c in ("float", "int"):
@@ -2138,6 +2191,12 @@ W_OUTSIDE = [
     ("return-value-in-void", "export function f(int a) -> void { return a; }"),
     ("store-float-to-int-parameter", "export function f(int a, float x) -> int { a = x; return a; }"),
     ("store-int-to-float-parameter", "export function f(int a, float x) -> float { x = a; return x * 0.5; }"),
+] + [
+    # ++/-- on int and float variables: the constant 1 the lowering adds has to be emitted in the operand's own encoding
+    (f"affix;{T};{form.format(v='v')};{storage};{ret}",
+     f"export function f({T} a) -> {T if ret == 'value' else 'void'} {{ " + (f"{T} l = a; " if storage == "local" else "") + form.format(v="l" if storage == "local" else "a") + "; "
+     + {"value": f"return {'l' if storage == 'local' else 'a'};", "void-falls-off": "", "void-return": "return;"}[ret] + " }")
+    for T in ("int", "float") for form in ("++{v}", "{v}++", "--{v}", "{v}--") for storage in ("param", "local") for ret in ("value", "void-falls-off", "void-return")
 ] + [
     # integer literals at and beyond the edges of the 32-bit ranges, in every spelling: whatever is emitted has to be a valid
     # i32.const immediate (or the literal is refused); inside the signed range the value has to come back
